@@ -178,3 +178,46 @@ pub proof fn lemma_count_take_step(depths: Seq<usize>, step: int, i: int)
     assert(depths.take(i + 1).drop_last() =~= depths.take(i));
     if i > 0 { lemma_count_take_step(depths, step, i - 1); }
 }
+
+// ---------------------------------------------------------------- C07 / C08: thread builders and joins of a spawned step
+
+pub open spec fn concat_all(l: Seq<Seq<Tok>>) -> Seq<Tok>
+    decreases l.len()
+{
+    if l.len() == 0 { no_toks() } else { concat_all(l.drop_last()) + l.last() }
+}
+
+pub proof fn lemma_concat_all(v: Seq<TokenStream>)
+    ensures seq_toks(v) == concat_all(ts_views(v)), all_tokenizable(v),
+    decreases v.len(),
+{
+    if v.len() > 0 {
+        lemma_concat_all(v.drop_last());
+        assert(ts_views(v).drop_last() =~= ts_views(v.drop_last()));
+    }
+}
+
+/// `let __j{b} = __tb(b);` : one named builder per ACTIVE branch, numbered by BRANCH index
+pub open spec fn tb_item(b: usize) -> Seq<Tok> {
+    bp(bg(bt(bp(bt(bi(no_toks(), "let"@), seq![Tok::Ident(construct_thread_builder_name_spec(b))]), '='), seq![Tok::Ident(construct_thread_builder_fn_name_spec())]),
+          Delim::Paren, bt(no_toks(), seq![Tok::Lit(usize_lit(b))])), ';')
+}
+pub open spec fn tb_list(depths: Seq<usize>, step: int, upto: int) -> Seq<Seq<Tok>>
+    decreases upto
+{
+    if upto <= 0 { Seq::<Seq<Tok>>::empty() }
+    else { tb_list(depths, step, upto - 1) + if depths[upto - 1] > step { seq![tb_item((upto - 1) as usize)] } else { Seq::<Seq<Tok>>::empty() } }
+}
+/// `step_results.k.join().unwrap()`: every handle is joined, in branch order (position among the active branches)
+pub open spec fn join_item(idx: Seq<Tok>) -> Seq<Tok> {
+    bg(bi(bp(bg(bi(bp(bt(no_toks(), idx), '.'), "join"@), Delim::Paren, no_toks()), '.'), "unwrap"@), Delim::Paren, no_toks())
+}
+pub open spec fn joins_list(srn: Seq<Tok>, depths: Seq<usize>, step: int, upto: int) -> Seq<Seq<Tok>>
+    decreases upto
+{
+    if upto <= 0 { Seq::<Seq<Tok>>::empty() }
+    else {
+        joins_list(srn, depths, step, upto - 1)
+            + if depths[upto - 1] > step { seq![join_item(indexed_name(srn, count_active(depths, step), active_pos(depths, step, upto - 1) as usize))] } else { Seq::<Seq<Tok>>::empty() }
+    }
+}
